@@ -1,5 +1,6 @@
 (* C04 - Concurrent requests behave as if processed one at a time. *)
-From Chihaya Require Import Model.History Model.Conc Model.Locks Model.MemLocks Proofs.MemP Proofs.RedisP Proofs.ConcP Proofs.LocksP Proofs.MemLocksP.
+From Chihaya Require Import Model.History Model.Conc Model.Locks Model.MemLocks Proofs.MemP Proofs.RedisP Proofs.ConcP Proofs.LocksP Proofs.MemLocksP Proofs.SearchP.
+From Chihaya Require Glue.G04.
 Open Scope Z_scope.
 
 (* ---- memory store *)
@@ -188,3 +189,22 @@ Theorem C04_redis_gc_removes_fresh_refuted :
     r_hash (k_swarm v6 true ih) (red_put_seeder ih v6 pk t (red_gc T st0)) !! pk = Some t.
 Proof. exact redis_gc_removes_fresh_refuted. Qed.
 Print Assumptions C04_redis_gc_removes_fresh_refuted.
+
+(* ---- the clause "as if processed one at a time" as it is DECIDED on every schedule-forced run of the real stores.
+   Lin: an interleaving of the threads' observed steps exists - program order kept inside every thread, an expiry step
+   for a swarm created after the pass began performed or skipped - along which every step's observation is the one the
+   sequential specification yields and which ends in the observed final state (and, after the late expiry pass, in the
+   second one).  The search in Glue/G04.v answers true exactly then; the driver's hint only steers its order. *)
+Theorem C04_checker_decides_linearizability :
+  forall c : G04.ccase,
+    G04.linearizable c = true <->
+    Lin (G04.c_clock c) (G04.case_keys c) (G04.c_final c) (G04.c_post c) (G04.c_final2 c)
+        (run_spec (G04.c_setup c)) (map (fun t => (t, None)) (G04.c_threads c)).
+Proof. exact linearizable_iff. Qed.
+Print Assumptions C04_checker_decides_linearizability.
+
+Theorem C04_search_hint_irrelevant :
+  forall clock keys entries post entries2 fuel hint hint' st ths,
+    G04.search fuel clock keys entries post entries2 hint st ths = G04.search fuel clock keys entries post entries2 hint' st ths.
+Proof. exact search_hint_irrelevant. Qed.
+Print Assumptions C04_search_hint_irrelevant.
